@@ -41,6 +41,9 @@ func Read(fd io.Reader) (*Metrics, error) {
 	charMetrics := false
 	kernPairs := false
 	scanner := bufio.NewScanner(fd)
+	// A line can be longer than the scanner's default limit of 64 KiB (a long
+	// notice, a glyph with many ligatures); the buffer grows as needed.
+	scanner.Buffer(nil, 1<<30)
 	for scanner.Scan() {
 		line := scanner.Text()
 		if strings.HasPrefix(line, "EndCharMetrics") {
